@@ -232,3 +232,106 @@ class IntervalEval:
             # (*ts.as_ref()) : the timespec inside a TimeSpec
             return self.ev(a[0])
         return None
+
+
+def eval_int(v, env):
+    """evaluate a PSI term over integers given values for leaves (env: term -> int);
+    returns None when the term contains anything not understood"""
+    if v in env:
+        return env[v]
+    n = const_num(v)
+    if isinstance(n, int):
+        return n
+    if v[0] != 't':
+        return None
+    op, a = v[1], v[2]
+    if op in ('cast', 'conv'):
+        x = eval_int(a[0], env)
+        if x is None:
+            return None
+        if op == 'cast' and a[1] == 'IntToInt' and a[2] in INT_RANGES:
+            lo, hi = INT_RANGES[a[2]]
+            span = hi - lo + 1
+            return (x - lo) % span + lo
+        return x
+    if len(a) == 2 and all(isinstance(z, tuple) for z in a):
+        x, y = eval_int(a[0], env), eval_int(a[1], env)
+        if x is None or y is None:
+            return None
+        if op in ('Le', 'le'):
+            return int(x <= y)
+        if op in ('Lt', 'lt'):
+            return int(x < y)
+        if op in ('Ge', 'ge'):
+            return int(x >= y)
+        if op in ('Gt', 'gt'):
+            return int(x > y)
+        if op in ('Eq', 'eq'):
+            return int(x == y)
+        if op in ('Ne', 'ne'):
+            return int(x != y)
+        if op == 'BitAnd':
+            return x & y
+        if op == 'BitOr':
+            return x | y
+        if op == 'BitXor':
+            return x ^ y
+        if op == 'Add':
+            return x + y
+        if op == 'Sub':
+            return x - y
+        if op == 'Mul':
+            return x * y
+        if op == 'Rem' and y != 0:
+            return x % y
+        if op == 'Div' and y != 0:
+            return x // y
+        if op == 'wadd':
+            return (x + y) & 0xffff if True else None
+        if op == 'wsub':
+            return (x - y) & 0xffff
+    if len(a) == 1 and op == 'Not':
+        x = eval_int(a[0], env)
+        return None if x is None else int(not x)
+    return None
+
+
+def cond_holds(cond, env):
+    """truth of a path condition (term, op, val, site) under env; None if not evaluable"""
+    term, op, val, _ = cond
+    x = eval_int(term, env)
+    if x is None:
+        return None
+    if op == '==':
+        return x == val
+    return x not in val
+
+
+def mentions(v, leaf):
+    return any(x == leaf for x in psi.walk(v))
+
+
+def expand(v):
+    """distribute constant multiplication over sums: list of (coefficient, factors)"""
+    v = strip_casts(v)
+    if v[0] == 't' and v[1] in ('Add', 'Sub'):
+        l = expand(v[2][0])
+        r = expand(v[2][1])
+        if v[1] == 'Sub':
+            r = [(-c, f) for c, f in r]
+        return l + r
+    if v[0] == 't' and v[1] == 'Mul':
+        a, b = strip_casts(v[2][0]), strip_casts(v[2][1])
+        ca, cb = const_num(a), const_num(b)
+        if cb is not None:
+            return [(c * cb, f) for c, f in expand(a)]
+        if ca is not None:
+            return [(c * ca, f) for c, f in expand(b)]
+    if v[0] == 't' and v[1] == 'Div':
+        d = const_num(strip_casts(v[2][1]))
+        if d not in (None, 0):
+            return [(c / d, f) for c, f in expand(v[2][0])]
+    if v[0] == 't' and v[1] == 'Neg':
+        return [(-c, f) for c, f in expand(v[2][0])]
+    c, f = monomial(v)
+    return [(c, f)]
